@@ -216,3 +216,36 @@ def is_call_to(v: ast.AST, *names: str) -> bool:
 
 def for_target(loop: ast.For) -> str:
     return unparse(loop.target)
+
+
+def alpha(e) -> str:
+    """unparse with comprehension / lambda bound variables renamed positionally (_c1, _c2, ...): two expressions that differ
+    only in the names of such bound variables give the same text.  Accepts an AST node or source text."""
+    import copy
+    if isinstance(e, str):
+        e = ast.parse(e, mode="eval").body
+    else:
+        for n in ast.walk(e):
+            pass
+        e = _strip_copy(e)
+    names = {}
+    for n in ast.walk(e):
+        if isinstance(n, ast.comprehension):
+            for t in ast.walk(n.target):
+                if isinstance(t, ast.Name) and t.id not in names:
+                    names[t.id] = f"_c{len(names) + 1}"
+        if isinstance(n, ast.Lambda):
+            for a in n.args.args:
+                if a.arg not in names:
+                    names[a.arg] = f"_c{len(names) + 1}"
+    for n in ast.walk(e):
+        if isinstance(n, ast.Name) and n.id in names:
+            n.id = names[n.id]
+        if isinstance(n, ast.arg) and n.arg in names:
+            n.arg = names[n.arg]
+    return unparse(e)
+
+
+def _strip_copy(node):
+    from .model import _copy_without_parents
+    return _copy_without_parents(node)
